@@ -193,9 +193,17 @@ fn sjis_field(w: usize, r: &mut Rng) -> Vec<u8> {
 	let mut out = vec![];
 	// 0..w-1 content bytes followed by a NUL, or (one time in four) content that fills the whole field
 	let n = if r.chance(1, 4) { w } else { r.below(w as u64) as usize };
+	// one time in five the content is mostly half-width katakana (1 byte here, 3 bytes of UTF-8: the decoded name is
+	// up to three times as long as the field); one time in ten it is two-byte characters right up to the last byte
+	let mode = r.below(10);
 	while out.len() < n {
 		let left = n - out.len();
-		match r.below(4) {
+		let pick = match mode {
+			0 | 1 => if r.chance(1, 6) { 3 } else { 1 },
+			2 => if left >= 2 && (left % 2 == 0 || r.chance(1, 2)) { 0 } else { 3 },
+			_ => r.below(4),
+		};
+		match pick {
 			0 if left >= 2 => {
 				// two-byte: lead 0x88..0x97 (kanji level 1), trail 0x9F..0xFC: always mapped
 				out.push(0x88 + r.below(0x10) as u8);
